@@ -10,7 +10,7 @@ RULE = (
     "case = history of 12-40 events over 5-30 files (a fifth of them symbolic links to files elsewhere): mutations {grow, shrink, same-size rewrite in place, replace-by-rename "
     "(same or other size), touch, delete, re-create (inode reuse happens naturally)} interleaved with queries {raw State.get, "
     "State.get_many vs get at the same instant, hash_file(state) under md5 / sha256 / md5-dos2unix / blake3 on the same paths with "
-    "fresh or caller-supplied stat info, _get_hashes, staging a directory with a state-carrying store, index md5(), index "
+    "fresh or caller-supplied stat info, _get_hashes, staging a directory with a state-carrying store, index md5() on a fresh index or on an index object built before later mutations, the batched lookups on a memfs path with caller-supplied listing infos around a same-size overwrite, an object checkout one of whose links fails while a user file sits at that path (object-level checkout with an outdated old=, index-level apply after compare), index "
     "update(new, old) after mutating between the two builds, a query during which another writer rewrites a file right after it was read}; injected rows {legacy without version, version 2, another "
     "algorithm, garbage JSON}; a memfs path equal to a local path string; batches of 998/999/1000/1001/2100 files across the "
     "SQL-parameter boundary with a mutated prefix; tmpfs and ext4 scratch.  Every answer is compared with hashlib on the bytes read "
@@ -21,7 +21,7 @@ ASSUMPTIONS = [
     "single-threaded: the bytes read right after an answer are the bytes the answer was about",
 ]
 MONITORS = "every (meta, hash) obtained through the state cache or carried over by update() compared with hashlib at the same instant"
-REQUIRED_COUNTERS = ["large_file_cases", "index_update_with_reloaded_old_index", "racing_writer_queries", "symlinked_files", "answers_checked", "state_hits_checked", "mutations", "get_vs_get_many_compared", "staging_listings_checked", "index_md5_checked",
+REQUIRED_COUNTERS = ["index_md5_on_reused_index", "memfs_batched_queries", "failed_link_checkouts", "failed_create_index_checkouts", "large_file_cases", "index_update_with_reloaded_old_index", "racing_writer_queries", "symlinked_files", "answers_checked", "state_hits_checked", "mutations", "get_vs_get_many_compared", "staging_listings_checked", "index_md5_checked",
                      "index_update_carried_checked", "injected_rows", "memfs_queries", "batch_boundary_cases", "mutations_between_queries", "ext4_cases"]
 
 ALGOS = ["md5", "sha256", "md5-dos2unix", "blake3"]
@@ -201,6 +201,7 @@ def run_shard(ctx):
                     cur[bp] = c
                 res.count("large_file_cases")
             hist = []
+            kept = {"idx": None}
             seen_tokens.clear()
             last_q = {}  # path -> mutation count at last query
             mcount = {p: 0 for p in cur}
@@ -259,7 +260,7 @@ def run_shard(ctx):
                         else:
                             cur[p] = new
                     continue
-                q = rng.choice(["hash_file", "hash_file", "get", "get_many", "_get_hashes", "build", "index_md5", "index_update", "inject", "memfs", "racing-writer"])
+                q = rng.choice(["hash_file", "hash_file", "get", "get_many", "_get_hashes", "build", "index_md5", "index_update", "inject", "memfs", "racing-writer", "checkout-failed-link", "index-checkout-failed-create"])
                 if batch and q in ("build", "index_md5", "index_update"):
                     q = "get_many"
                 hist.append(["query", q, ""])
@@ -324,12 +325,23 @@ def run_shard(ctx):
                         else:
                             verify(p, "md5", got[p], "staging")
                 elif q == "index_md5" and paths:
-                    idx = imd5(ibuild(wdir, fs), state=state)
+                    if kept["idx"] is not None and rng.random() < 0.6:
+                        # an index object built earlier (before later mutations) is hashed now, through the same state
+                        idx = imd5(kept["idx"], state=state)
+                        how_ = "index.md5/index-built-earlier"
+                        res.count("index_md5_on_reused_index")
+                    else:
+                        fresh = ibuild(wdir, fs)
+                        idx = imd5(fresh, state=state)
+                        how_ = "index.md5"
+                        if kept["idx"] is None or rng.random() < 0.3:
+                            kept["idx"] = fresh
                     note_query(paths)
                     res.count("index_md5_checked")
                     for k, e in idx.iteritems():
-                        if e.hash_info:
-                            verify(os.path.join(wdir, *k), e.hash_info.name, e.hash_info.value, "index.md5")
+                        pk = os.path.join(wdir, *k)
+                        if e.hash_info and os.path.isfile(pk):
+                            verify(pk, e.hash_info.name, e.hash_info.value, how_)
                 elif q == "index_update" and paths:
                     old = imd5(ibuild(wdir, fs), state=state)
                     changed = []
@@ -425,6 +437,79 @@ def run_shard(ctx):
                         _m, hi = hash_file(p, fs, "md5", state=state)
                         verify(p, "md5", hi.value, f"hash_file/after-racing-writer({how})")
                     note_query(victims)
+                elif q == "checkout-failed-link":
+                    # an object checkout in which one entry cannot be linked (its object is gone from the cache) while a file of the
+                    # user's already sits at that path (it appeared after the caller's scan): nothing may be recorded for that file
+                    from dvc_data.hashfile.checkout import CheckoutError, checkout as _checkout
+                    from dvc_data.hashfile.transfer import transfer as _transfer
+
+                    res.count("failed_link_checkouts")
+                    codir = os.path.join(d, f"co-{len(hist)}")
+                    a_, b_ = gen.small_content(rng) + b"A", gen.small_content(rng) + b"B"
+                    gen.write_tree(codir, {("a",): a_, ("sub", "b"): b_})
+                    stg, _m, tobj = build(odb, codir, fs, "md5")
+                    _transfer(stg, odb, {tobj.hash_info}, shallow=False)
+                    os.unlink(os.path.join(codir, "sub", "b"))
+                    _s0, _m0, scan = build(odb, codir, fs, "md5", dry_run=True)  # the caller's (soon outdated) view
+                    own = gen.small_content(rng) + b"user-own"
+                    with open(os.path.join(codir, "sub", "b"), "wb") as f:
+                        f.write(own)
+                    bp_ = odb.oid_to_path(H("md5", b_))
+                    os.chmod(bp_, 0o644)
+                    os.unlink(bp_)
+                    try:
+                        _checkout(codir, fs, tobj, odb, force=True, state=state, old=scan)
+                    except CheckoutError:
+                        res.count("failed_link_checkouts_raised")
+                    for rel in (("a",), ("sub", "b")):
+                        pp = os.path.join(codir, *rel)
+                        if os.path.isfile(pp):
+                            _m1, h1 = hash_file(pp, fs, "md5", state=state)
+                            verify(pp, "md5", h1.value, "hash_file/after-checkout-with-failed-link")
+                elif q == "index-checkout-failed-create":
+                    # the same through the index-level checkout: compare, then a file of the user's appears at a path that is to be
+                    # created and the entry's object is gone from the cache; apply reports the entry - and must record nothing for it
+                    from dvc_data.index.checkout import apply as _iapply, compare as _icompare
+
+                    from .. import indexlab
+
+                    res.count("failed_create_index_checkouts")
+                    codir = os.path.join(d, f"ico-{len(hist)}")
+                    a_, b_ = gen.small_content(rng) + b"iA", gen.small_content(rng) + b"iB"
+                    tfiles = {("a",): a_, ("sub", "b"): b_}
+                    indexlab.save_tree_to_cache(ctx, odb, tfiles, d, name=f"ico-src-{len(hist)}")
+                    gen.write_tree(codir, {("a",): a_})
+                    tgt = indexlab.explicit_index(tfiles, cache_odb=odb)
+                    dff = _icompare(indexlab.workspace_index(codir), tgt, delete=True)
+                    own = gen.small_content(rng) + b"user-own"
+                    os.makedirs(os.path.join(codir, "sub"), exist_ok=True)
+                    with open(os.path.join(codir, "sub", "b"), "wb") as f:
+                        f.write(own)
+                    bp_ = odb.oid_to_path(H("md5", b_))
+                    os.chmod(bp_, 0o644)
+                    os.unlink(bp_)
+                    errs_ = []
+                    lk_ = rng.choice([None, ["copy"], ["hardlink"], ["symlink"]])
+                    try:
+                        _iapply(dff, codir, fs, storage="cache", state=state, update_meta=False, onerror=lambda s_, d_, e_: errs_.append(d_),
+                                links=lk_)
+                    except Exception:  # noqa: BLE001  (loud is fine here)
+                        errs_.append("raised")
+                    if errs_:
+                        res.count("failed_create_index_checkouts_reported")
+                    for rel in (("a",), ("sub", "b")):
+                        pp = os.path.join(codir, *rel)
+                        if os.path.isfile(pp) and not os.path.islink(pp):
+                            _m1, h1 = hash_file(pp, fs, "md5", state=state)
+                            if lk_ == ["symlink"]:
+                                # the link primitive keeps an existing destination without saying so (nothing reaches onerror)
+                                res.count("answers_checked")
+                                if h1.value != H("md5", file_bytes(pp)):
+                                    res.violation("stale-hash/checkout-recorded-a-kept-existing-file/symlink",
+                                                  "index checkout with link type symlink silently kept a file that had appeared at a path to be created and recorded it "
+                                                  "in the hash state under the target's hash", case=case, detail={"history": hist[-6:]})
+                            else:
+                                verify(pp, "md5", h1.value, "hash_file/after-index-checkout-with-failed-create")
                 elif q == "memfs" and paths:
                     p = rng.choice(paths)
                     _m, _h = hash_file(p, fs, "md5", state=state)  # make sure a local row exists for this path string
@@ -440,6 +525,20 @@ def run_shard(ctx):
                     many = list(state.get_many([p], memfs, {}))
                     if many and many[0][2] is not None:
                         res.violation("non-local-filesystem-hit/get_many", "get_many answered for a memfs path", case=case)
+                    # the batched entry points with caller-supplied listing infos (what staging a directory does), twice, with a
+                    # same-size overwrite in between
+                    for rnd_ in (1, 2):
+                        minfos = {p: memfs.info(p)}
+                        outm = _get_hashes([p], memfs, "md5", minfos, state=state, jobs=1)
+                        res.count("memfs_batched_queries")
+                        if outm[p][1].value != H("md5", other):
+                            res.violation("non-local-filesystem-hit/_get_hashes", f"round {rnd_}: the batched lookup answered a memfs path with a hash that is not the hash of its bytes",
+                                          case=case)
+                        many2 = list(state.get_many([p], memfs, minfos))
+                        if many2 and many2[0][2] is not None:
+                            res.violation("non-local-filesystem-hit/get_many", "get_many (with listing infos) answered for a memfs path", case=case)
+                        other = bytes((b + 1) % 256 for b in other)
+                        memfs.pipe_file(p, other)
                     memfs.rm_file(p)
                     note_query([p])
             res.sample({"files": nfiles, "history": hist[:14], "ext4": on_disk, "batch": batch})
